@@ -47,7 +47,7 @@ claim("C03", f"{DED} for clause U of wf and the refusal cases in reach; {BND} fo
       "Clause U (no two siblings with one data_id) is part of wf; every route that would create a duplicate must raise UniqueConstraintError and leave the tree unchanged.", NOTE, "§5 C03")
 claim("C04", f"functional postconditions + frame conditions of every mutator against an independent executable specification; {DED} where in reach, {BND} elsewhere; {XCHK}",
       "Each mutator's effect on the abstract view (documented `before` rules, order, frame) is a postcondition taken from the documentation; real code and model run side by side on every enumerated pre-state/argument combination and on random histories.", NOTE + "; list.sort assumed stable", "§5 C04")
-claim("C05", f"{BND} of the round-trip contract load(save(T, opts)) ~ T over trees x option matrix; {DED} only for the mapper adapter call_mapper",
+claim("C05", f"{BND} of the round-trip contract load(save(T, opts)) ~ T over trees x option matrix; {DED} only for the mapper adapter call_mapper and the per-node payload (_make_list_entry)",
       "Document-level round trip is out of the deductive engine's reach (json/zip/io are assumed); decided by the bounded tier over small trees x the full option matrix.", NOTE + "; json/zipfile/io assumed", "§5 C05")
 claim("C06", f"{DED} for call_traversal_cb and the iterator/visit functions in reach (recursive spec sequences Pre/Post); {BND} for all methods x start nodes x control signals",
       "Iterators are specified against recursive mathematical sequences; visit against the same order plus skip/stop semantics.", NOTE + "; random.shuffle, dict order assumed", "§5 C06")
@@ -61,7 +61,7 @@ claim("C10", f"{DED}: every relationship query in reach has a postcondition over
       "Read-only queries are proved equal to their definition over the abstract view for all wf trees of unbounded size (loops carry inductive invariants with ghost counters); equal-comparing siblings are covered because list searches are specified by identity.", NOTE, "§5 C10")
 claim("C11", f"{BND} of the projection laws of diff over all ordered pairs of small labelled trees x ordered x reduce",
       "diff_tree is a recursion through a closure writing captured sets plus clone lookups and filter: out of the deductive engine's reach; decided by the bounded tier.", NOTE, "§5 C11")
-claim("C12", f"{BND}: writer output checked against the documented layout, independent encoder + literal documentation examples fed to the reader, malformed headers; {DED} only for the mapper adapter call_mapper",
+claim("C12", f"{BND}: writer output checked against the documented layout, independent encoder + literal documentation examples fed to the reader, malformed headers; {DED} only for the mapper adapter call_mapper and the per-node payload (_make_list_entry, both classes)",
       "Both directions of the documented file layout.", NOTE + "; json assumed", "§5 C12")
 claim("C13", f"{DED}: exceptional postconditions (raises ... ensures unchanged) of the operations in reach, with a forked raising path at every callback invocation; {BND}: every refused call of the sweeps must leave obs() unchanged, callbacks raising at the k-th invocation; {XCHK}",
       "Refusals leave the tree observably unchanged; callback exceptions leave it well-formed.", NOTE, "§5 C13")
